@@ -34,6 +34,18 @@ func suiteC10Instr(c *Ctx) {
 		restore := tally.VerifSetNow(func() time.Time { return now })
 		name := []string{"call", "rpc", "x"}[r.Intn(3)]
 		call := instrument.NewCall(sc, name)
+		scClosed := false
+		if prefix != "" && r.Chance(35) {
+			// the scope the Call was made from is closed by its owner (and collected by the passes below) while the Call
+			// object lives on: every Exec still runs its function once, records one latency and counts one outcome
+			sc.(io.Closer).Close()
+			scClosed = true
+			c.Cov.Hit("exec.scope-closed-after-newcall")
+			if r.Bool() {
+				tally.VerifReportOnce(w.root)
+				w.log().Take()
+			}
+		}
 		reps := r.Range(1, 3)
 		for k := 0; k < reps; k++ {
 			elapsed := int64(r.Range(-5, 2000)) * int64(time.Millisecond)
@@ -149,6 +161,9 @@ func suiteC10Instr(c *Ctx) {
 			w.log().Take()
 		}
 		// stopwatches
+		if scClosed {
+			sc = w.root // (a histogram first used on a closed scope is, as it should be, never reported)
+		}
 		tm := sc.Timer("t")
 		h := sc.Histogram("h", tally.DurationBuckets{time.Millisecond, time.Second})
 		start := now
